@@ -223,6 +223,22 @@ def run(tier, seed):
                 lmerged[key] = (t[0], text, detail)
     for key, (fname, text, detail) in sorted(lmerged.items()):
         failures.append(Failure("C07", key, f"{fname}: {detail}", {"kind": "strict", "fname": fname, "text": text}))
+    # type blocks closed in every way C allows, followed by more top-level items: the depth must be back at file level
+    # after each of them (checked at the end of the file) and nothing may be swallowed
+    from ..model import header42
+    closings = ["}\tt_item;", "}\t*t_item;", "}\t**t_item;", "}\tt_item, *t_pitem;", "};", "}\tt_item[2];", "} __attribute__((packed))\tt_item;",
+                "}\t*t_item, t_val;", "}\t(*t_item);"]
+    for kw, tag in (("struct", "s_item"), ("union", "u_item"), ("enum", "e_item")):
+        members = "\tITEM_A,\n\tITEM_B\n" if kw == "enum" else "\tint\t\tvalue;\n\tchar\t*name;\n"
+        for cl in closings:
+            head = (f"typedef {kw} {tag}\n" if not cl == "};" else f"{kw} {tag}\n")
+            blk = head + "{\n" + members + cl + "\n"
+            hh = norm.render(norm.preamble(".h", "test.h"))
+            vtasks.append(("test.h", hh + blk + "\nint\t\tft_value(int n);\n\n" + blk.replace("item", "other").replace("ITEM", "OTHER") +
+                           "\nint\t\tft_other(int n);\n\n#endif\n", f"closing:{kw}:{cl.split(chr(9))[-1][:12]}:h"))
+            hc = norm.render(norm.preamble(".c", "test.c"))
+            vtasks.append(("test.c", hc + blk + "\nint\tft_value(int n)\n{\n\treturn (n);\n}\n\nint\tft_other(int n)\n{\n\treturn (n + 1);\n}\n",
+                           f"closing:{kw}:{cl.split(chr(9))[-1][:12]}:c"))
     from . import c02
     for label, ln, code, text in c02.ternary_cases():
         vtasks.append(("test.h" if "#ifndef TEST_H" in text else "test.c", text, "violating:" + label))
